@@ -1,10 +1,10 @@
 SPECIFICATION Spec
 CONSTANTS Tx = {"t1", "t2"}
-          MaxH = 2
+          MaxH = 1
           MAXTX = 2
           NC = 3
           NOPS = 2
-          ListLen = 2
+          ListLen = 1
           EmitOn = FALSE
 VIEW ViewMC
 INVARIANT PropC37
